@@ -445,6 +445,99 @@ tracked_shape!(T40A8, u32, 4, 8, 36);
 tracked_shape!(T64A64, u32, 4, 64, 0);
 tracked_shape!(T2A1P, u8, 1, 1, 1); // size 2 align 1
 
+/// Shapes without drop glue (`needs_drop::<T>() == false`): contents and clones are observed, there
+/// is no destructor. Exists because "plain data" fast paths in a library are selected at compile
+/// time by exactly that predicate.
+macro_rules! nodrop_shape {
+    ($name:ident, $idty:ty, $idw:expr, $align:expr, $pad:expr) => {
+        #[repr(C, align($align))]
+        pub struct $name {
+            id: $idty,
+            _pad: [u8; $pad],
+        }
+        impl Shape for $name {
+            const NAME: &'static str = stringify!($name);
+            const TRACKED: bool = false;
+            const IDW: usize = $idw;
+            fn fresh() -> Self {
+                let id = fresh_id($idw, IdState::Plain);
+                $name { id: id as $idty, _pad: [0x33; $pad] }
+            }
+            #[inline]
+            fn raw(&self) -> u32 {
+                unsafe { std::ptr::read_volatile(&self.id) as u32 }
+            }
+            fn rewrite(&mut self) -> u32 {
+                let new = fresh_id($idw, IdState::Plain);
+                unsafe { std::ptr::write_volatile(&mut self.id, new as $idty) };
+                new
+            }
+        }
+        impl Clone for $name {
+            fn clone(&self) -> Self {
+                callback(Cb::Clone);
+                let src = self.read();
+                let n = Self::fresh();
+                let t = tix();
+                reg(|r| r.ev[t].clones.push((src, n.raw())));
+                n
+            }
+        }
+        impl Default for $name {
+            fn default() -> Self {
+                Self::fresh()
+            }
+        }
+        impl PartialEq for $name {
+            fn eq(&self, o: &Self) -> bool {
+                callback(Cb::Cmp);
+                self.read() == o.read()
+            }
+        }
+        impl Eq for $name {}
+        impl PartialOrd for $name {
+            fn partial_cmp(&self, o: &Self) -> Option<Ordering> {
+                callback(Cb::Cmp);
+                self.read().partial_cmp(&o.read())
+            }
+        }
+        impl Ord for $name {
+            fn cmp(&self, o: &Self) -> Ordering {
+                callback(Cb::Cmp);
+                self.read().cmp(&o.read())
+            }
+        }
+        impl Hash for $name {
+            fn hash<H: Hasher>(&self, h: &mut H) {
+                callback(Cb::Hash);
+                self.read().hash(h)
+            }
+        }
+        impl std::fmt::Debug for $name {
+            fn fmt(&self, f: &mut std::fmt::Formatter<'_>) -> std::fmt::Result {
+                callback(Cb::Fmt);
+                write!(f, "n{}", self.read())
+            }
+        }
+        impl crate::handle::Probe for $name {
+            fn probe_id(&self) -> u32 {
+                self.read()
+            }
+        }
+        #[cfg(feature = "cfg_a")]
+        impl<'de> serde::Deserialize<'de> for $name {
+            fn deserialize<D: serde::Deserializer<'de>>(d: D) -> Result<Self, D::Error> {
+                let _ = <u32 as serde::Deserialize>::deserialize(d)?;
+                Ok(Self::fresh())
+            }
+        }
+    };
+}
+nodrop_shape!(N4A4, u32, 4, 4, 0);
+nodrop_shape!(N8A8, u32, 4, 8, 0);
+nodrop_shape!(N16A16, u32, 4, 16, 0);
+nodrop_shape!(N40A8, u32, 4, 8, 36);
+
 /// Zero-sized tracked shape: counted, not identified.
 pub struct Z0;
 impl Shape for Z0 {
